@@ -92,7 +92,10 @@ def gen_case(seed, i):
         ed["step"] = rng.choice(STEPS)
         edits.append(ed)
     return {"i": i, "world": w.to_json(), "cfg": cfg, "edits": edits, "op": rng.choice(ops.OPS),
-            "fmt": rng.choice(["default", "json"]), "gap": rng.choice(STEPS)}
+            "fmt": rng.choice(["default", "json"]), "gap": rng.choice(STEPS),
+            # the two processes may live in any time zone (POSIX TZ strings need no tz database)
+            "tz": rng.choice(["UTC0", "UTC0", "CET-2", "EST5", "IST-5:30", "LINT-14", "HST10"]),
+            "tz2": rng.choice([None, None, "UTC0", "JST-9", "PST8"])}
 
 
 def gen_cases(tier, seed):
@@ -134,8 +137,14 @@ def record_points(case):
         return pts
 
 
-def _env(case):
-    return {"FCLONES_VERIF_DEVICES": "/=%s:simroot" % case["cfg"].get("kind", "ssd")}
+def _env(case, second=False):
+    e = {"FCLONES_VERIF_DEVICES": "/=%s:simroot" % case["cfg"].get("kind", "ssd")}
+    tz = case.get("tz")
+    if second and case.get("tz2"):
+        tz = case["tz2"]        # the dedupe run happens on a machine / in a shell with another zone
+    if tz:
+        e["TZ"] = tz
+    return e
 
 
 def shrink(case):
@@ -150,6 +159,8 @@ def shrink(case):
         c = dict(case); c["world"] = {"entries": ents[:i] + ents[i + 1:]}; yield c
     if case["fmt"] != "default":
         c = dict(case); c["fmt"] = "default"; yield c
+    if case.get("tz2"):
+        c = dict(case); c["tz2"] = None; yield c
 
 
 def run_case(case):
@@ -207,7 +218,7 @@ def run_case(case):
             baseline[0] = inventory(rd.world)   # conservation counts from the state after the last edit
             return clock[0]
 
-        res = ops.dedupe(rd, case["op"], rep_bytes, target=os.path.join(rd.world, "T"), plan=dplan, env=_env(case),
+        res = ops.dedupe(rd, case["op"], rep_bytes, target=os.path.join(rd.world, "T"), plan=dplan, env=_env(case, True),
                          now_ns=clock[0], on_hit=on_hit_dedupe if d_edits else None, seed=5, threads_env=1)
         traces.append(res.trace)
         after = inventory(rd.world)
